@@ -7,17 +7,25 @@ package publicsuffix
 // (the generator's own dump of the list, 10133 rules; the first numICANNRules are the ICANN section). It never looks
 // at the packed nodes/children/text tables that the code under test walks.
 //
-//   VerifC51_lookup  (B) domain = 1..2 (thorough 3) labels of 1..3 symbolic bytes each from [a-z0-9-] (first byte of the
-//                    domain not a digit, so it is never an IP literal). Label lengths are concretised; the rules whose
-//                    shape (label count / label lengths / leading "*") can match are compared symbolically, without
-//                    forking (vfOr / vfIte accumulation).
-//   VerifC51_rules   (B) templates from the rule list itself: every wildcard and exception rule and every 16th other
-//                    rule R (thorough: every 4th): the domains R, x.R and y.x.R with symbolic labels x (1, 3 or 4 bytes)
-//                    and y (2 bytes). This reaches long labels, deep rules, wildcards below and above, and exceptions.
+//   VerifC51_lookup  (B) domain = [1..2 (thorough 3) symbolic labels of 1..3 bytes from [a-z0-9-] (first byte not a digit)]
+//                    + a top-level label chosen concretely: every third top-level label of the rule list of at most 3 bytes
+//                    plus za, ck, uk, jp, com, de, net (thorough: every one, about 1450) plus the unlisted "q", "qq", "qqq". Label lengths are concretised; the rules
+//                    under that top-level label whose shape (label count / lengths / leading "*") can match are compared
+//                    symbolically without forking (vfOr / vfIte accumulation over packed label bytes).
+//   VerifC51_rules   (B) templates from the rule list itself: every exception rule, every 4th wildcard rule and every 64th
+//                    other rule R (thorough: every wildcard rule, every 16th other rule): the domains R, x.R and y.x.R with
+//                    symbolic labels x (3 or 4 bytes; thorough also 1) and y (2 bytes). This reaches long labels, deep rules, wildcards below and above, and exceptions.
 //   VerifC51_sorted  concrete pass: every child range of the packed table is strictly increasing (precondition of find).
 //
 // Sensitivity (mut.sh):
-//   MUTATION-RESULTS-PLACEHOLDER
+//   list.go find `hi = mid` -> `hi = mid - 1`                                   caught (suffix)
+//   list.go `suffix = 1 + len(s)` (exception) -> `suffix = len(s)`              caught (whole labels)
+//   list.go `wildcard = u&(1<<childrenBitsWildcard-1) != 0` -> `wildcard = false` caught (ICANN flag / suffix)
+//   list.go EffectiveTLDPlusOne `domain[:i]` -> `domain[:i+1]`                   caught (eTLD+1)
+//   list.go candidate repair of the known finding (`icann = icannNode` only if the node is not parent-only):
+//            package tests pass, check passes without KNOWN-FINDING
+//
+// Known finding C51-icann-inner-node: see known_findings.txt and repro/C51.
 
 import "strings"
 
@@ -36,9 +44,12 @@ type c51rule struct {
 	pk     uint64 // those bytes, big-endian, left to right
 }
 
-// c51idx: rules grouped by shape key: label lengths left to right, "*" for a wildcard label, e.g. "*,3,2".
+// c51idx: rules grouped by shape and top-level label: label lengths left to right, "*" for a wildcard label, then
+// "|" and the last label, e.g. "*,3,2|uk". c51deep: for every rule and every proper suffix of it (1 <= d < number of
+// labels, no "*" inside), the suffix grouped the same way: these are the inner nodes of the rule tree (used only by
+// the witness predicate of the known finding). c51tlds: distinct last labels in order of first appearance.
 // Built once per process by the package initialiser (rules is initialised before, by dependency order).
-var c51idx = c51build()
+var c51idx, c51deep, c51tlds = c51build()
 
 func c51itoa(n int) string {
 	if n < 10 {
@@ -48,6 +59,10 @@ func c51itoa(n int) string {
 }
 
 func c51key(labels []string) string {
+	return c51shape(labels) + "|" + labels[len(labels)-1]
+}
+
+func c51shape(labels []string) string {
 	k := ""
 	for i, l := range labels {
 		if i > 0 {
@@ -98,12 +113,47 @@ func c51pack(labels []string) (uint64, bool) {
 	return v, true
 }
 
-func c51build() map[string][]c51rule {
+func c51build() (map[string][]c51rule, map[string][]c51rule, []string) {
 	m := map[string][]c51rule{}
+	deep := map[string][]c51rule{}
+	seenDeep := map[string]bool{}
+	seenTLD := map[string]bool{}
+	var tlds []string
 	for i := range rules {
 		r := c51parse(i)
 		k := c51key(r.labels)
 		m[k] = append(m[k], r)
+		n := len(r.labels)
+		if !seenTLD[r.labels[n-1]] {
+			seenTLD[r.labels[n-1]] = true
+			tlds = append(tlds, r.labels[n-1])
+		}
+		for d := 1; d < n; d++ {
+			suf := r.labels[n-d:]
+			if suf[0] == "*" {
+				continue
+			}
+			js := strings.Join(suf, ".")
+			if seenDeep[js] {
+				continue
+			}
+			seenDeep[js] = true
+			x := c51rule{labels: suf}
+			x.pk, x.packed = c51pack(suf)
+			dk := c51key(suf)
+			deep[dk] = append(deep[dk], x)
+		}
+	}
+	return m, deep, tlds
+}
+
+func c51eq(r c51rule, cmp []string, v uint64, packed bool) bool {
+	if packed {
+		return v == r.pk
+	}
+	m := true
+	for j := range cmp {
+		m = vfAnd(m, r.labels[len(r.labels)-len(cmp)+j] == cmp[j])
 	}
 	return m
 }
@@ -112,32 +162,26 @@ func c51build() map[string][]c51rule {
 // symbolic bytes): number of labels of the public suffix, ICANN flag of the prevailing rule, and whether that flag is
 // well defined (a wildcard rule and a plain rule of the same length from different sections both matching is the
 // only way it is not).
-func c51want(labels []string) (n int, icann bool, flagDefined bool) {
+func c51want(labels []string) (n int, icann bool, flagDefined bool, innerBeyond bool) {
 	L := len(labels)
 	n, icann, flagDefined = 1, false, true
 	excN, excHit, excIcann := 0, false, false
+	matchedN := 0 // labels of the prevailing listed rule, 0 if only the default rule matches
 	for k := 1; k <= L; k++ {
 		suf := labels[L-k:]
 		anyK, icAny, icAll := false, false, true
-		keys := []string{c51key(suf)}
-		w := append([]string{"*"}, suf[1:]...)
-		keys = append(keys, c51key(w))
-		for ki, key := range keys {
-			cmp := suf
+		for ki := 0; ki < 2; ki++ {
+			cmp, key := suf, c51key(suf)
 			if ki == 1 {
+				if k == 1 {
+					break
+				}
 				cmp = suf[1:] // "*" matches any one label
+				key = "*," + c51key(cmp)
 			}
 			v, packed := c51pack(cmp)
 			for _, r := range c51idx[key] {
-				var m bool
-				if packed {
-					m = v == r.pk
-				} else {
-					m = true
-					for j := range cmp {
-						m = vfAnd(m, r.labels[len(r.labels)-len(cmp)+j] == cmp[j])
-					}
-				}
+				m := c51eq(r, cmp, v, packed)
 				if r.exc {
 					excHit = vfOr(excHit, m)
 					excN = vfIteInt(m, k-1, excN)
@@ -150,12 +194,25 @@ func c51want(labels []string) (n int, icann bool, flagDefined bool) {
 			}
 		}
 		n = vfIteInt(anyK, k, n)
+		matchedN = vfIteInt(anyK, k, matchedN)
 		icann = vfIteBool(anyK, icAny, icann)
 		flagDefined = vfIteBool(anyK, icAny == icAll, flagDefined)
 	}
 	n = vfIteInt(excHit, excN, n)
 	icann = vfIteBool(excHit, excIcann, icann)
 	flagDefined = vfOr(excHit, flagDefined)
+	// witness predicate of the known finding: the domain continues along inner nodes of the rule tree (proper suffixes of
+	// longer rules) beyond its prevailing rule
+	for d := 1; d <= L; d++ {
+		suf := labels[L-d:]
+		v, packed := c51pack(suf)
+		isInner := false
+		for _, r := range c51deep[c51key(suf)] {
+			isInner = vfOr(isInner, c51eq(r, suf, v, packed))
+		}
+		innerBeyond = vfOr(innerBeyond, vfAnd(isInner, d > matchedN))
+	}
+	innerBeyond = vfAnd(innerBeyond, vfNot(excHit))
 	return
 }
 
@@ -172,7 +229,7 @@ func c51check(labels []string) {
 	}
 	sufLen[L+1] = -1
 	got, icann := PublicSuffix(domain)
-	wantN, wantIcann, flagDefined := c51want(labels)
+	wantN, wantIcann, flagDefined, innerBeyond := c51want(labels)
 	vfAssert(len(got) <= len(domain) && got == domain[len(domain)-len(got):], "the result is a suffix of the domain")
 	gotN := 0 // number of labels of the returned suffix (lengths are concrete)
 	for k := 1; k <= L; k++ {
@@ -182,7 +239,10 @@ func c51check(labels []string) {
 	}
 	vfAssert(gotN >= 1, "the result consists of whole labels")
 	vfAssert(wantN == gotN, "public suffix = labels matched by the prevailing rule")
-	vfAssert(vfImplies(flagDefined, icann == wantIcann), "ICANN flag of the prevailing rule")
+	// known finding C51-icann-inner-node: the flag of an inner (parent-only) tree node, always true in the shipped table,
+	// replaces the flag of the prevailing rule (false for the default rule and for private rules)
+	vfAssertKF(vfImplies(flagDefined, icann == wantIcann), "ICANN flag of the prevailing rule", "C51-icann-inner-node",
+		vfAnd(vfAnd(icann, vfNot(wantIcann)), innerBeyond))
 
 	// from here on the suffix is known to be the reference's (asserted above for every value on this path)
 	e1, err := EffectiveTLDPlusOne(domain)
@@ -212,21 +272,54 @@ func c51label(name string, n int, first bool) string {
 	return string(bs)
 }
 
+// c51lookupTLDs: the top-level labels offered by VerifC51_lookup: the unlisted "q", "qq", "qqq"; quick: every third
+// listed top-level label of at most 3 bytes plus a few with wildcard/exception/inner-node structure; thorough: all.
+func c51lookupTLDs(all bool) []string {
+	out := []string{"q", "qq", "qqq", "za", "ck", "uk", "jp", "com", "de", "net"}
+	for i, t := range c51tlds {
+		if all || (len(t) <= 3 && i%3 == 0) {
+			out = append(out, t)
+		}
+	}
+	return out
+}
+
+// c51pick chooses an index below n with two small selectors (a single selector over n alternatives costs n decisions).
+func c51pick(label string, n int) int {
+	hi := vfChoice(label+"hi", (n+31)/32)
+	lo := vfChoice(label+"lo", 32)
+	vfAssume(hi*32+lo < n)
+	return hi*32 + lo
+}
+
 func VerifC51_lookup() {
-	L := vfLen("labels", 1, 2+vfTier())
-	labels := make([]string, L)
+	tlds := c51lookupTLDs(vfTier() > 0)
+	tld := tlds[c51pick("tld", len(tlds))]
+	L := vfLen("labels", 0, 1+vfTier())
+	labels := make([]string, L, L+1)
 	for i := range labels {
 		labels[i] = c51label("label", vfLen("len", 1, 3), i == 0)
 	}
+	labels = append(labels, tld)
 	c51check(labels)
 	vfReach("end")
 }
 
-// c51templates: indices into rules used by VerifC51_rules.
-func c51templates(step int) []int {
+// c51templates: indices into rules used by VerifC51_rules: every exception rule, every wstep-th wildcard rule, every
+// step-th other rule.
+func c51templates(step, wstep int) []int {
 	var idx []int
+	nw := 0
 	for i, s := range rules {
-		if s[0] == '!' || s[0] == '*' || i%step == 0 {
+		switch {
+		case s[0] == '!':
+			idx = append(idx, i)
+		case s[0] == '*':
+			if nw%wstep == 0 {
+				idx = append(idx, i)
+			}
+			nw++
+		case i%step == 0:
 			idx = append(idx, i)
 		}
 	}
@@ -234,12 +327,12 @@ func c51templates(step int) []int {
 }
 
 func VerifC51_rules() {
-	step := 16
+	step, wstep := 64, 4
 	if vfTier() > 0 {
-		step = 4
+		step, wstep = 16, 1
 	}
-	t := c51templates(step)
-	r := c51parse(t[vfChoice("rule", len(t))])
+	t := c51templates(step, wstep)
+	r := c51parse(t[c51pick("rule", len(t))])
 	base := r.labels
 	if r.wild {
 		base = base[1:]
@@ -249,10 +342,10 @@ func VerifC51_rules() {
 	case 0:
 		labels = base
 	case 1:
-		x := c51label("x", []int{1, 3, 4}[vfChoice("xlen", 3)], true)
+		x := c51label("x", []int{3, 4, 1}[vfChoice("xlen", 2+vfTier())], true)
 		labels = append([]string{x}, base...)
 	case 2:
-		x := c51label("x", []int{1, 3, 4}[vfChoice("xlen", 3)], false)
+		x := c51label("x", []int{3, 4, 1}[vfChoice("xlen", 2+vfTier())], false)
 		y := c51label("y", 2, true)
 		labels = append([]string{y, x}, base...)
 	}
@@ -286,3 +379,4 @@ func VerifC51_sorted() {
 	vfObserve("children", uint64(nchildren))
 	vfReach("end")
 }
+
